@@ -76,6 +76,10 @@ pub fn gen_len(max: u32) -> u32 {
         6 => range(64, 200),
         _ => range(0, 40),
     };
+    // "and beyond": when the run allows long strings, now and then one that spans pages
+    if max > 200 && chance(1, 6) {
+        return (*pick(&[255u32, 256, 257, 1000, 4095, 4096, 4097, 5000])).min(max);
+    }
     v.min(max)
 }
 
